@@ -1,8 +1,8 @@
 """C04 — a mutated view is indistinguishable from a fresh value with the same content."""
 from hist import *  # noqa
 
-THEOREMS = ["C04_tree_set", "C04_tree_append", "C04_root_of_representation", "C04_step", "C04_history", "C04_observables", "C04_fresh_is_representation", "C04_indistinguishable", "C04_constructed_is_representation", "C04_container_set", "C04_vector_set", "C04_list_set", "C04_list_append", "C04_list_value_history", "C04_list_pop", "C04_tree_pop", "C04_union_change", "C04_union_change_none", "C04_packed_vector_set", "C04_packed_list_set", "C04_list_set_any", "C04_list_append_any", "C04_list_pop_any", "C04_list_history_any"]
-PARTIAL = ["value level: container field assignment, vector element assignment (packed and composite), list element assignment / append / pop for ANY element type (packed chunk splicing, expanding append, summarising pop) and union change, as steps and as arbitrary valid histories at any nesting depth, are proved to end in a representation of the implied value, which is proved indistinguishable (root, encoding, length) from the fresh value for every type; NOT proved at view level: bit set / bitlist append / pop, ByteVector / ByteList are immutable (no ops), stale-root caching (C19 covers the heap) — bit operations are tied by the correspondence on random mutation histories (content, length, encoding, root vs. fresh value after every step)"]
+THEOREMS = ["C04_tree_set", "C04_tree_append", "C04_root_of_representation", "C04_step", "C04_history", "C04_observables", "C04_fresh_is_representation", "C04_indistinguishable", "C04_constructed_is_representation", "C04_container_set", "C04_vector_set", "C04_list_set", "C04_list_append", "C04_list_value_history", "C04_list_pop", "C04_tree_pop", "C04_union_change", "C04_union_change_none", "C04_packed_vector_set", "C04_packed_list_set", "C04_list_set_any", "C04_list_append_any", "C04_list_pop_any", "C04_list_history_any", "C04_bitvector_set", "C04_bitlist_set", "C04_bitlist_append", "C04_bitlist_pop"]
+PARTIAL = ["every mutating operation named by the property (element / field assignment, append, pop, bit set, Bitlist append / pop, union change; packed and composite elements) is proved to map a representation of a value to a representation of the updated value, and every representation is proved indistinguishable (root, encoding, length) from the fresh value; histories are proved for lists (any element type) and compose for nested views through the C05 child theorems; NOT proved: that the Python methods are exactly these model functions, coercion of the assigned Python object to the element type, and root caching (C19 covers the heap) — tied by the correspondence on random mutation histories (content, length, encoding, root vs. fresh value after every step)"]
 COQ_IMPORTS = ["RM.Types", "RM.ModelStore", "RMR.RunH"]
 COQ_FN = "RunH.run"
 COQ_CASE_TY = "RunH.case"
